@@ -912,3 +912,24 @@ def setting_value_source(chk, rule):
     uses_exists = any(call_attr(c) == "is_machine_var" for c in f.calls())
     chk.ob(rule, "a setting's stored value is used whenever its machine variable exists; the default only for a missing variable or an illegal stored value",
            ok and uses_exists, f.where(), detail="; ".join(why) or ("is_machine_var consulted: %s" % uses_exists), construct=f.ident, text="setting value source")
+
+
+def game_ended_only_through_its_api(chk, rule):
+    """Nobody outside the game mode stops the game mode object directly (`<...>.game.stop()`): a running game is ended through
+    end_game() / end_ball(), which run the ball-end and game-end sequences (ball_will_end disables flippers and autofires, the
+    lifecycle events are posted, players are closed).  A direct stop leaves machine.game None with the rules of the last ball installed."""
+    from sa.index import get_index
+    idx = get_index(chk.repo)
+    n_api = 0
+    for name in ("end_game", "end_ball"):
+        for u in idx.uses(name):
+            if u.call is not None and (u.recv_text or "").endswith("game") and "/tests/" not in u.relpath:
+                n_api += 1
+    bad = [u for u in idx.uses("stop") if u.call is not None and "/tests/" not in u.relpath and u.relpath.startswith("mpf/") and
+           ((u.recv_text or "") == "game" or (u.recv_text or "").endswith(".game")) and not u.relpath.endswith("modes/game/code/game.py")]
+    for u in bad:
+        chk.ob(rule, "a running game is ended through end_game() / end_ball(), never by stopping the game mode directly", False, "%s:%d" % (u.relpath, u.node.lineno),
+               detail="`%s.stop()` in %s skips ball_will_end / ball_ending / game_ended: flipper and autofire rules stay installed with no game running" % (u.recv_text, u.scope),
+               construct=u.func.ident if u.func is not None else u.relpath, text="game mode stopped directly in " + (u.scope or u.relpath))
+    chk.ob(rule, "callers that end the game go through end_game() / end_ball() (%d call sites), none stops the game mode directly" % n_api, n_api >= 2 and not bad,
+           "mpf/modes/game/code/game.py:1", nontrivial=False)
